@@ -668,4 +668,39 @@ def rule_g(ctx):
     return r
 
 
-RULES = [rule_a, rule_b, rule_c, rule_d, rule_e, rule_f, rule_g]
+
+def rule_h(ctx):
+    r = RuleResult("C05-h", "@supports conditions: a negation nested under and/or/not is written in parentheses (`a and not b` is not a valid <supports-condition>): "
+                   "parenthesize_supports_condition has an arm for Negation that wraps the text in `(` `)`")
+    prog = ctx.prog()
+    b = prog.one("evaluate::visitor::Visitor::parenthesize_supports_condition")
+    found = None
+    for sw, ap, adt, variants, rv in common.discr_switches(b):
+        if (adt or "").endswith("AstSupportsCondition") and ap.root == ("arg", 2):
+            t = b.term(sw)
+            found = ({variants.get(v): tb for v, tb in t["ts"]}, t["else"])
+    if found is None:
+        raise AnchorMissing("parenthesize_supports_condition: no match on the condition kind")
+    arms, els = found
+    key = "parenthesize_supports_condition|negation-wrapped"
+    ok = False
+    if "Negation" in arms and arms["Negation"] != els:
+        region = common.reach_from(b, arms["Negation"]) - common.reach_from(b, els)
+        for c in b.calls():
+            if c.bb in region | {arms["Negation"]} and (c.callee or "").endswith("fmt::Arguments::new"):
+                bs = None
+                from .c07 import _template_bytes, fmt_placeholders
+                bs = _template_bytes(b, c.args[0])
+                if bs is not None:
+                    ph, lit = fmt_placeholders(bs)
+                    if lit == "()" and len(ph) == 1:
+                        ok = True
+    if ok:
+        r.ok(key)
+    else:
+        r.violate(key, "parenthesize_supports_condition no longer wraps a nested negation in parentheses: `(a) and (not (b))` is emitted as `(a) and not (b)`, which neither "
+                  "browsers nor grass itself accept", b.loc())
+    return r
+
+
+RULES = [rule_a, rule_b, rule_c, rule_d, rule_e, rule_f, rule_g, rule_h]
